@@ -111,8 +111,10 @@ NoTpl == [t |-> "str", toks |-> <<>>]
 (***************************************************************************)
 Policies == {"code", "transparent", "identity"}
 
-IsNode(e) == e.k \in {"seq", "src", "split"}
-IsSeqLike(e) == e.k \in {"seq", "src"}
+\* "srcf" = a Source whose first data element is itself a Source, or a Split of Sources, that
+\* generates the flow (and exports static context like any earlier element)
+IsNode(e) == e.k \in {"seq", "src", "srcf", "split"}
+IsSeqLike(e) == e.k \in {"seq", "src", "srcf"}
 
 (***************************************************************************)
 (* The fold.  cur = [err, key, ctx]; err latches the first unresolved      *)
@@ -227,7 +229,11 @@ MFStep(k, tpl, s, rc) ==
 RT0 == Dict("rt" :> Leaf("int", <<"0">>))
 RT1 == Dict("rt" :> Leaf("int", <<"1">>))
 RTIn == <<RT0, RT1>>
-RECURSIVE RunList(_, _, _, _), RunBranches(_, _, _, _), CatOuts(_, _, _, _)
+RECURSIVE RunList(_, _, _, _), RunBranches(_, _, _, _), CatOuts(_, _, _, _), RunSrcF(_, _, _)
+NoData(E, e) == E[e].k \in {"set", "store"}
+\* position of the first data element (the generator) among the children of a srcf node
+RECURSIVE GenPos(_, _, _)
+GenPos(E, ch, j) == IF j > Len(ch) THEN 0 ELSE IF ~NoData(E, ch[j]) THEN j ELSE GenPos(E, ch, j + 1)
 MapSeq(f(_), s) == [j \in 1..Len(s) |-> f(s[j])]
 RunList(E, seen, ch, vals) ==
   IF ch = <<>> THEN vals
@@ -249,9 +255,20 @@ CatOuts(E, seen, l, vals) ==
   ELSE LET b == Head(l) IN
     (CASE E[b].k = "acc" -> IF vals = <<>> THEN <<Empty>> ELSE <<vals[Len(vals)]>>
        [] E[b].k = "src" -> RunList(E, seen, E[b].ch, RTIn)
+       [] E[b].k = "srcf" -> RunSrcF(E, seen, b)
        [] OTHER -> RunList(E, seen, E[b].ch, vals)) \o CatOuts(E, seen, Tail(l), vals)
+\* Source(.., generator, rest..)(): the generator's values run through the rest
+RunSrcF(E, seen, n) ==
+  LET ch == E[n].ch
+      gp == GenPos(E, ch, 1)
+      g == ch[gp]
+      vals0 == CASE E[g].k = "src" -> RunList(E, seen, E[g].ch, RTIn)
+                 [] E[g].k = "srcf" -> RunSrcF(E, seen, g)
+                 [] OTHER -> RunBranches(E, seen, E[g].ch, <<>>)
+  IN RunList(E, seen, SubSeq(ch, gp + 1, Len(ch)), vals0)
 RunRoot(E, seen) == LET r == Len(E) IN
   IF E[r].k = "split" THEN RunBranches(E, seen, E[r].ch, RTIn)
+  ELSE IF E[r].k = "srcf" THEN RunSrcF(E, seen, r)
   ELSE RunList(E, seen, E[r].ch, RTIn)
 
 =============================================================================
